@@ -325,6 +325,19 @@ func genText(r *core.Run, row int) (string, bool) {
 	return textPool[r.Rand.Intn(len(textPool))], false
 }
 
+// texts among which some read as the boolean TRUE (t, true): they are equal to each other and ordered as texts against
+// other texts.  (Texts reading as different booleans are not mutually comparable - '<' between 't' and 'F' is UNKNOWN -
+// and stay outside, as the property demands mutually comparable keys.)
+func genTextBool(r *core.Run, row int) (string, bool) {
+	if r.Rand.Intn(8) == 0 {
+		return "", true
+	}
+	if r.Rand.Intn(4) == 0 {
+		return []string{"t", "true", " True"}[r.Rand.Intn(3)], false
+	}
+	return textPool[r.Rand.Intn(len(textPool))], false
+}
+
 func genDT(r *core.Run, row int) (string, bool) {
 	if r.Rand.Intn(8) == 0 {
 		return "", true
